@@ -44,12 +44,14 @@ func (e *fnEnc) instr(in ssa.Instruction) {
 		e.allocs = append(e.allocs, ref)
 		e.allocs = append(e.allocs, e.embRefsOf(ref, pt)...)
 		e.val[in] = []Term{{ref, "Int", in.Type()}}
+		priv := privID(in)
 		if isStructT(U, pt) {
-			d := &addrDesc{kind: aStructRef, ref: ref, T: pt}
+			d := &addrDesc{kind: aStructRef, ref: ref, T: pt, priv: priv}
 			e.addr[in] = d
 			e.storeDesc(d, Term{U.zero(U.sortOf(pt)), U.sortOf(pt), pt})
 		} else {
-			d := &addrDesc{kind: aDeref, ref: ref, heap: U.derefHeap(pt), T: pt}
+			d := &addrDesc{kind: aDeref, ref: ref, T: pt, priv: priv}
+			e.inPriv(d, func() { d.heap = U.derefHeap(pt) })
 			e.addr[in] = d
 			e.storeDesc(d, Term{U.zero(U.sortOf(pt)), U.sortOf(pt), pt})
 		}
@@ -59,12 +61,18 @@ func (e *fnEnc) instr(in ssa.Instruction) {
 		f := st.Field(in.Field)
 		base := e.get(in.X)
 		e.safe("nilptr", fmt.Sprintf("(not (= %s 0))", base.S), in.Pos())
+		priv := ""
+		if bd := e.addr[in.X]; bd != nil {
+			priv = bd.priv
+		}
 		if isStructT(U, f.Type()) {
 			ref := U.embRef(base.S, pt, f)
 			e.val[in] = []Term{{ref, "Int", in.Type()}}
-			e.addr[in] = &addrDesc{kind: aStructRef, ref: ref, T: f.Type()}
+			e.addr[in] = &addrDesc{kind: aStructRef, ref: ref, T: f.Type(), priv: priv}
 		} else {
-			e.addr[in] = &addrDesc{kind: aHeapField, ref: base.S, heap: U.heapOfField(pt, f), T: f.Type()}
+			d := &addrDesc{kind: aHeapField, ref: base.S, T: f.Type(), priv: priv}
+			e.inPriv(d, func() { d.heap = U.heapOfField(pt, f) })
+			e.addr[in] = d
 			e.val[in] = []Term{{fmt.Sprintf("(fieldaddr.%s %s)", f.Name(), base.S), "?addr", in.Type()}}
 		}
 	case *ssa.IndexAddr:
@@ -160,6 +168,10 @@ func (e *fnEnc) instr(in ssa.Instruction) {
 		si := U.structs[x.Sort]
 		if si == nil {
 			e.unsupported(in, "Field of non-struct sort "+x.Sort)
+			return
+		}
+		if parts, ok := e.structParts[x.S]; ok && in.Field < len(parts) {
+			e.define(in, Term{S: parts[in.Field], Sort: si.FSorts[in.Field]})
 			return
 		}
 		e.define(in, Term{S: fmt.Sprintf("(%s %s)", si.sel(in.Field), x.S), Sort: si.FSorts[in.Field]})
@@ -331,7 +343,9 @@ func (e *fnEnc) loadDesc(d *addrDesc, heap heapState) Term {
 	case aHeapField, aDeref:
 		return Term{fmt.Sprintf("(select %s %s)", ht(d.heap), d.ref), d.heap.Elem, d.T}
 	case aStructRef:
-		return U.loadAt(d.ref, d.T, ht)
+		var t Term
+		e.inPriv(d, func() { t = U.loadAt(d.ref, d.T, ht) })
+		return t
 	case aGlobal:
 		// globals declared in the prelude as G.pkg.name are immutable
 		// constants (stores to them are frame violations)
@@ -389,7 +403,7 @@ func (e *fnEnc) storeDesc(d *addrDesc, v Term) {
 		}
 		e.setHeap(d.heap, v.S)
 	case aStructRef:
-		e.storeStruct(d.ref, d.T, v)
+		e.inPriv(d, func() { e.storeStruct(d.ref, d.T, v) })
 	case aLocalArr:
 		e.localArr[d.arr][d.idx] = v
 		if e.localArrV[d.arr] == nil {
